@@ -503,7 +503,7 @@ def judge(records, tag, check=None, workers=8):
 # name, env, measured number of complete histories (for choosing the sampling modulus)
 PROFILES = [
     ("deep",   {"DICT_MAXOPS": 6, "DICT_MAXLIVE": 1, "DICT_MERGE": 0, "DICT_FROM": 0}, 69000),
-    ("branch", {"DICT_MAXOPS": 5, "DICT_MAXLIVE": 3, "DICT_MERGE": 0, "DICT_FROM": 0}, 330000),
+    ("branch", {"DICT_MAXOPS": 5, "DICT_MAXLIVE": 4, "DICT_MERGE": 0, "DICT_FROM": 0}, 587000),
     ("algebra", {"DICT_MAXOPS": 4, "DICT_MAXLIVE": 4, "DICT_MERGE": 1, "DICT_FROM": 1}, 340000),
 ]
 
